@@ -4,6 +4,7 @@ import (
 	"fmt"
 	"go/types"
 	"math/big"
+	"sort"
 	"strings"
 
 	"golang.org/x/tools/go/ssa"
@@ -19,6 +20,10 @@ type BV struct {
 	W int
 	C *uint64
 	I string // optional: Int term with the same value, known to lie in [0, 2^40)
+	// optional origin of a byte: character ChI (an Int term) of string ChS
+	ChS string
+	ChI string
+	ChK int // concrete index or -1
 }
 type BoolV struct {
 	T string
@@ -27,12 +32,16 @@ type BoolV struct {
 type StrV struct {
 	T string
 	C *string
+	Parts []*StrV // when the value is a concatenation: its operands in order
 }
 type StructV struct{ F []Value }
 type ArrayV struct{ E []Value }
 
 type Obj struct {
 	ID   int
+	// StrOrigin: the array was created by []byte(s) for this string and has
+	// not been written since (string(b) then gives s back).
+	StrOrigin *StrV
 	V    Value
 	Born int    // allocation sequence number on this path
 	Tag  string // "", "global:<name>", "input:<name>", "lazy:<name>"
@@ -276,3 +285,5 @@ func appendPath(p []int, i int) []int {
 	n[len(p)] = i
 	return n
 }
+
+func sortStrings(s []string) { sort.Strings(s) }
